@@ -9,17 +9,22 @@
 mod child;
 mod props;
 mod runner;
+mod shmemu;
 mod stackpool;
 
 fn main() {
     let args = mcx::parse_args();
     if let Some(model) = args.extra.get("child") {
+        if std::env::var_os("LOOMCHECK_REAL_SHM").is_none() {
+            shmemu::enable();
+        }
         child::run(&args, &model.clone());
     }
     if args.replay.is_some() {
         runner::replay(&args);
     }
     match args.prop.as_str() {
+        "C41" => props::c41(&args),
         "C43" => props::c43(&args),
         "C44" => props::c44(&args),
         "C33" => props::c33(&args),
